@@ -25,6 +25,10 @@ class Callee:
         return f"{self.kind}:{self.name}"
 
 
+# names too generic to be attributed to a private helper class on the strength of the name alone
+_COMMON_METHOD_NAMES = {"get", "set", "add", "pop", "remove", "append", "items", "keys", "values", "update", "copy", "clear", "start", "cancel", "close", "send", "run", "wait", "format", "split", "join"}
+
+
 class Resolver:
     def __init__(self, project: Project):
         self.p = project
@@ -353,7 +357,8 @@ class Resolver:
             # receiver of unknown type: a *private* method name that exactly one class of the
             # package defines can only be that method (private names are not part of anybody
             # else's interface)
-            if f.attr.startswith("_") and not f.attr.startswith("__"):
+            private_owner_only = [ci for ci in self.p.classes.values() if f.attr in ci.methods]
+            if not f.attr.startswith("__") and (f.attr.startswith("_") or (private_owner_only and all(ci.name.startswith("_") for ci in private_owner_only) and f.attr not in _COMMON_METHOD_NAMES)):
                 owners = [ci for ci in self.p.classes.values() if f.attr in ci.methods]
                 roots = [ci for ci in owners if not any(o is not ci and self.p.is_subclass(ci, o.name) for o in owners)]
                 if len(roots) == 1:
